@@ -219,6 +219,9 @@ func (e *Exec) RunSteps() {
 				e.W.Disconnect(st.Target)
 				e.script("REPLACE-CONN %s -> %s", st.Target, e.W.Connect(st.Target))
 			}
+		case "foreign-relation":
+			id, on := e.W.ForeignRelation(st.Target)
+			e.script("FOREIGN-RELATION %s %s present=%v", st.Target, id, on)
 		case "restart-empty":
 			// a device restart always takes its connection with it, as with a real gRPC channel
 			was := e.W.Connected(st.Target)
@@ -234,8 +237,13 @@ func (e *Exec) RunSteps() {
 			e.script("DEV-FAULT %s %v", st.Target, st.Codes)
 			e.W.Devices[st.Target].FailNext(st.Codes...)
 		case "crash":
-			e.script("CRASH armed: before effect +%d", st.CrashK)
-			e.W.CrashBeforeEffect(e.W.Effects() + int64(st.CrashK))
+			if st.CrashRPC {
+				e.script("CRASH armed: before Atomix write +%d", st.CrashK)
+				e.W.CrashBeforeRPC(e.W.RPCWrites() + int64(st.CrashK))
+			} else {
+				e.script("CRASH armed: before effect +%d", st.CrashK)
+				e.W.CrashBeforeEffect(e.W.Effects() + int64(st.CrashK))
+			}
 		case "set":
 			e.checkCrash()
 			c := e.IssueSet(st.Ops, st.Sync)
@@ -312,6 +320,7 @@ func (e *Exec) handleCrash() {
 	e.script("PROCESS KILLED; restarting (reconnecting %v)", reconnect)
 	e.Crashes++
 	e.W.CrashBeforeEffect(0)
+	e.W.CrashBeforeRPC(0)
 	if e.SecondCrash > 0 && e.Crashes == 1 {
 		e.W.CrashBeforeEffect(e.W.Effects() + int64(e.SecondCrash))
 	}
@@ -447,7 +456,18 @@ func (e *Exec) Settle(stableFor, maxWait time.Duration) {
 			break
 		}
 		if e.W.SinceLastChange() > stableFor {
-			break
+			// the snapshot judged above may be older than the quiet window (on a starved machine reading the stores
+			// takes seconds): judge a snapshot that was taken entirely inside it
+			w0 := e.W.Writes()
+			ok, why = e.goal(e.Snapshot())
+			if ok {
+				e.GoalReached = true
+				break
+			}
+			if e.W.Writes() == w0 && e.W.SinceLastChange() > stableFor {
+				break
+			}
+			continue
 		}
 		if time.Since(start) > maxWait {
 			e.C.Inconclusive("system still writing after " + maxWait.String() + ": " + why)
